@@ -147,8 +147,26 @@ fn edid_standard(data: &[u8], size: u32) -> Vec<(u32, u32)> {
 // ---------------------------------------------------------------------------------------------
 // GPU
 
-const FB: u32 = 0xbabe;
-const CUR: u32 = 0xdade;
+// Symbolic resource ids used in expectations. Which ids the driver gives its resources is its own
+// choice (non-zero, distinct among live resources): the model binds the real id when the resource
+// is created and demands that same id in every later command on it.
+const FB: u32 = 0xffff_fff1;
+const CUR: u32 = 0xffff_fff2;
+
+fn gpu_id_mut(c: &mut GpuCmd) -> Option<&mut u32> {
+    match c {
+        GpuCmd::Create2d { id, .. }
+        | GpuCmd::Unref { id }
+        | GpuCmd::SetScanout { id, .. }
+        | GpuCmd::Flush { id, .. }
+        | GpuCmd::Transfer { id, .. }
+        | GpuCmd::Attach { id, .. }
+        | GpuCmd::Detach { id }
+        | GpuCmd::UpdateCursor { id, .. }
+        | GpuCmd::MoveCursor { id, .. } => Some(id),
+        _ => None,
+    }
+}
 
 struct GpuRun<'a> {
     c: &'a CCase,
@@ -170,6 +188,7 @@ impl WithT for GpuRun<'_> {
         let chk = |dev: &Shared<GpuDev>| dev_errors(dev, |h| h.errors.first().cloned());
         let mut have_fb: Option<(u32, u32)> = None;
         let mut cursor_set = false;
+        let (mut fb_id, mut cur_id): (Option<u32>, Option<u32>) = (None, None);
         let mut clean = true; // no device error so far
         let mut sig = Sig::new();
         sig.add(c.kind as u64).add(accepted);
@@ -398,8 +417,51 @@ impl WithT for GpuRun<'_> {
                             }
                         }
                     }
+                    // bind / resolve the symbolic resource ids
+                    let (mut new_fb, mut new_cur) = (None, None);
+                    for (k, x) in e.iter().enumerate() {
+                        if let (GpuCmd::Create2d { id: sym, .. }, Some(GpuCmd::Create2d { id: got, .. })) = (x, log.get(k)) {
+                            if *sym == FB {
+                                new_fb = Some(*got);
+                            } else if *sym == CUR {
+                                new_cur = Some(*got);
+                            }
+                        }
+                    }
+                    if new_fb == Some(0) || new_cur == Some(0) {
+                        return Err(format!("{}: resource id 0 (\"no resource\") given to a new resource: {:x?}", what, log));
+                    }
+                    if (new_fb.is_some() && new_fb == cur_id) || (new_cur.is_some() && new_cur == fb_id) {
+                        return Err(format!("{}: a new resource was given the id of another live resource: {:x?}", what, log));
+                    }
+                    let mut created = false;
+                    for (k, x) in e.iter_mut().enumerate() {
+                        if matches!(x, GpuCmd::Create2d { .. }) {
+                            created = true;
+                        }
+                        let seen = log.get(k).cloned().and_then(|mut l| gpu_id_mut(&mut l).map(|i| *i));
+                        if let Some(id) = gpu_id_mut(x) {
+                            if *id == FB {
+                                if let Some(v) = if created { new_fb } else { fb_id } {
+                                    *id = v;
+                                }
+                            } else if *id == CUR {
+                                // a cursor command before any cursor resource exists names whatever
+                                // id the driver reserves for it
+                                if let Some(v) = if created { new_cur } else { cur_id.or(seen) } {
+                                    *id = v;
+                                }
+                            }
+                        }
+                    }
                     if log != e {
-                        return Err(format!("{}: device saw {:x?}, specification order/encoding is {:x?}", what, log, e));
+                        return Err(format!("{}: device saw {:x?}, specification order/encoding is {:x?} (resource ids {:x}/{:x} are symbolic: framebuffer/cursor, not yet bound)", what, log, e, FB, CUR));
+                    }
+                    if new_fb.is_some() {
+                        fb_id = new_fb;
+                    }
+                    if new_cur.is_some() {
+                        cur_id = new_cur;
                     }
                 }
             }
@@ -495,23 +557,35 @@ impl WithT for SndRun<'_> {
                 if l.is_empty() {
                     return Ok((n_before, false));
                 }
-                let want = [
-                    SndReq::JackInfo { start: 0, count: *jacks as u32, size: 24 },
-                    SndReq::PcmInfo { start: 0, count: ns, size: 32 },
-                    SndReq::ChmapInfo { start: 0, count: *chmaps as u32, size: 24 },
-                ];
-                if l.len() < 2 || l[0] != want[0] || l[1] != want[1] {
-                    return Err(format!("lazy set-up queries: device saw {:?}, expected them to start with {:?}", l.iter().take(3).collect::<Vec<_>>(), &want[..2]));
+                // Which information queries the set-up makes, and in which order, is the
+                // implementation's choice (the property fixes what is returned to the caller, which
+                // the Query operation checks): take the leading run of information queries, demand
+                // that each is a well-formed query for all items of its category, and read the
+                // outcome off the answer to the stream query.
+                let k = l.iter().take_while(|r| matches!(r, SndReq::JackInfo { .. } | SndReq::PcmInfo { .. } | SndReq::ChmapInfo { .. })).count();
+                let mut pcm_at = None;
+                for (i, r) in l[..k].iter().enumerate() {
+                    let ok = match r {
+                        SndReq::JackInfo { start, count, size } => (*start, *count, *size) == (0, *jacks as u32, 24),
+                        SndReq::PcmInfo { start, count, size } => {
+                            pcm_at = Some(i);
+                            (*start, *count, *size) == (0, ns, 32)
+                        }
+                        SndReq::ChmapInfo { start, count, size } => (*start, *count, *size) == (0, *chmaps as u32, 24),
+                        _ => unreachable!(),
+                    };
+                    if !ok {
+                        return Err(format!("lazy set-up queries: device saw {:?} with {} jacks, {} streams, {} channel maps configured (item sizes 24/32/24)", &l[..k], jacks, ns, chmaps));
+                    }
                 }
-                if a[1] != 0x8000 {
-                    // pcm info refused: set-up aborted, the operation must fail
-                    return Ok((n_before + 2, true));
+                if let Some(p) = pcm_at {
+                    if a[p] != 0x8000 {
+                        // pcm info refused: set-up aborted, the operation must fail
+                        return Ok((n_before + k, true));
+                    }
+                    *set_up_done = true;
                 }
-                if l.len() < 3 || l[2] != want[2] {
-                    return Err(format!("lazy set-up queries: device saw {:?}, expected {:?}", l.iter().take(3).collect::<Vec<_>>(), want));
-                }
-                *set_up_done = true;
-                Ok((n_before + 3, false))
+                Ok((n_before + k, false))
             };
             match op {
                 SOp::Inject(n, s) => {
